@@ -14,7 +14,8 @@ Export ListNotations.
 Record case := mk_case {
   c_kind : N;          (* 0 free through the renter API (indices as the caller gave them; the
                           model normalises like rpc.go), 1 free on the raw wire (indices as
-                          sent), 2 append, 3 sector-roots listing *)
+                          sent), 2 append, 3 sector-roots listing, 4 no RPC: the size of a
+                          range proof according to core's RangeProofSize (law check) *)
   c_roots : list N;    (* stored roots before *)
   c_args : list N;     (* free: indices; append: sector roots; listing: [offset; length] *)
   c_has : list bool;   (* append: whether the harness had uploaded the sector (HasSector) *)
@@ -24,7 +25,9 @@ Record case := mk_case {
                           the host's signature; 5 stream opened and closed *)
   c_ok : bool;         (* observed: the revision number advanced *)
   c_after : list N;    (* observed: stored roots after *)
-  c_out : list N       (* observed answer: append: accepted flags as 0/1; listing: the roots *)
+  c_out : list N;      (* observed answer: append: accepted flags as 0/1; listing: the roots *)
+  c_aux : N            (* listing: 1 + number of hashes in the host's proof (0: not observed);
+                          kind 4: 1 + core's RangeProofSize for c_args = [n; offset; length] *)
 }.
 
 Definition big : N := 1000000000000.
@@ -82,7 +85,31 @@ Definition out_matches (c : case) (outs : list out) : bool :=
       end
   end.
 
+(** the symbolic range proof has as many digests as the real proof has hashes *)
+Definition proof_len_matches (c : case) (outs : list out) : bool :=
+  match c_kind c, c_args c, outs with
+  | 3%N, [off; len], [ORootsResp _] =>
+      N.eqb (c_aux c) 0
+      || N.eqb (c_aux c)
+           (1 + N.of_nat (length (build_range_proof (length (c_roots c)) (c_roots c)
+                                    (N.to_nat off) (N.to_nat len))))
+  | _, _, _ => true
+  end.
+
+Definition check_law (c : case) : bool :=
+  match c_args c with
+  | [n; off; len] =>
+      let l := repeat 0%N (N.to_nat n) in
+      N.eqb (c_aux c)
+        (1 + N.of_nat (length (build_range_proof (N.to_nat n) l (N.to_nat off) (N.to_nat len))))
+      && verify_range (mroot l) (N.to_nat n) (N.to_nat off) (N.to_nat len)
+           (repeat 0%N (N.to_nat len))
+           (build_range_proof (N.to_nat n) l (N.to_nat off) (N.to_nat len))
+  | _ => false
+  end.
+
 Definition check_case (c : case) : bool :=
+  if N.eqb (c_kind c) 4 then check_law c else
   match request_of c with
   | None => false
   | Some r =>
@@ -91,6 +118,7 @@ Definition check_case (c : case) : bool :=
       bool_decide (h_roots h = c_after c)
       && Bool.eqb (negb (N.eqb (r_num (h_rev h)) 1)) (c_ok c)
       && out_matches c outs
+      && proof_len_matches c outs
       (* redundant with C09_commit_inv; kept so that a broken proof cannot hide a broken model *)
       && bool_decide (mroot (h_roots h) = r_root (h_rev h))
       && N.eqb (N.of_nat (length (h_roots h)) * sector_size) (r_size (h_rev h))
